@@ -20,18 +20,23 @@ EXTENDS Machine, IOUtils
 CONSTANT CheckObs,   \* TRUE: validation.  FALSE: diagnosis - follow the calls, print where
                      \* the logged outcome / observers differ from the specification
          ObsFields,  \* the observers this check compares (those its property speaks of); {} = all
-         MaskByHas   \* TRUE (C03): label observers are compared only for the pairs on whose
+         MaskByHas,  \* TRUE (C03): label observers are compared only for the pairs on whose
                      \* edge-ness the real object and the specification agree
+         OnlyRejected \* TRUE (C07): only the calls the specification rejects are judged: same
+                     \* exception type, and the logged projection equal to the one logged before the call
 
 Tr == ndJsonDeserialize(IOEnv.TRACE)
+Proj(o) == IF ObsFields = {} THEN o ELSE [f \in (ObsFields \cap DOMAIN o) |-> o[f]]
 
 VARIABLE l,          \* index of the next event
-         div         \* (MaskByHas) the real object and the specification disagree on which pairs
-                     \* are edges: the rest of this history is not judged (until the next reset)
+         div,        \* (MaskByHas) the real object and the specification disagree on which pairs
+                     \* are edges: the rest of this history is not judged (until the next reset);
+                     \* (OnlyRejected) the real object has left the specification's state
+         prev        \* (OnlyRejected) the projection logged by the previous event
 
-tvars == <<g, gh, last, l, div>>
+tvars == <<g, gh, last, l, div, prev>>
 
-TInit == Init /\ l = 1 /\ div = FALSE
+TInit == Init /\ l = 1 /\ div = FALSE /\ prev = Proj(Obs(Empty(0)))
 
 TReset == /\ Tr[l].c.op = "reset"
           /\ g' = Empty(0)
@@ -39,10 +44,10 @@ TReset == /\ Tr[l].c.op = "reset"
           /\ last' = [c |-> Tr[l].c, out |-> "ok"]
           /\ l' = l + 1
           /\ div' = FALSE
+          /\ prev' = Proj(Obs(Empty(0)))
 
 \* the logged projection carries exactly the compared observers (plus "inconsistent" when the
 \* harness found the real observers inconsistent with each other - which never matches)
-Proj(o) == IF ObsFields = {} THEN o ELSE [f \in (ObsFields \cap DOMAIN o) |-> o[f]]
 LabelFields == {"lab", "labd", "hasl"}
 MaskedEq(o, e) ==        \* o: specification, e: logged
     /\ DOMAIN Proj(o) = DOMAIN e
@@ -59,8 +64,17 @@ TStep == /\ Tr[l].c.op # "reset"
          /\ LET ev == Tr[l]
                 r  == Step(g, ev.c)
                 edgesDiffer == MaskByHas /\ "has" \in DOMAIN ev.obs /\ ev.obs.has # Obs(r.g).has
-            IN  /\ div' = (div \/ edgesDiffer)
-                /\ IF div \/ edgesDiffer THEN TRUE
+                \* C07: a rejection is judged when the real object is still where the specification
+                \* is, as far as the rejection depends on it (the size for out_of_range, everything
+                \* for invalid_argument)
+                judged == /\ r.out # "ok"
+                          /\ "n" \in DOMAIN prev /\ prev.n = g.n
+                          /\ (r.out = "invalid_argument" => ~div)
+            IN  /\ div' = (div \/ edgesDiffer \/ (OnlyRejected /\ Proj(Obs(r.g)) # ev.obs))
+                /\ prev' = ev.obs
+                /\ IF OnlyRejected
+                   THEN (CheckObs /\ judged) => (ev.out = r.out /\ ev.obs = prev)
+                   ELSE IF div \/ edgesDiffer THEN TRUE
                    ELSE IF CheckObs THEN ~Differs(ev, r)
                    ELSE Differs(ev, r) =>
                           PrintT(ToJson([mismatch_at |-> l, call |-> ev.c,
